@@ -1091,6 +1091,7 @@ void Model::activation_complete(const std::string &name, int owner) {
       e.what = "held message of a sender that is going away";
       e.prop = "C19";
       emit(owner, e);
+      route_matches(w.c, w.m, owner, false);   // eavesdroppers may see it as well (their copies are optional anyway)
       probes["held_message_of_closing_sender"]++;
       continue;
     }
